@@ -176,6 +176,8 @@ impl CheckedBackend {
 
     fn read(&self, offset: u64, out: &mut [u8]) -> Result<()> {
         self.check_failure()?;
+        #[cfg(redb_verif)]
+        crate::verif_types::pause("backend.read");
         let result = self.file.read(offset, out);
         if result.is_err() {
             self.io_failed.store(true, Ordering::Release);
@@ -203,6 +205,8 @@ impl CheckedBackend {
 
     fn write(&self, offset: u64, data: &[u8]) -> Result<()> {
         self.check_failure()?;
+        #[cfg(redb_verif)]
+        crate::verif_types::pause("backend.write");
         let result = self.file.write(offset, data);
         if result.is_err() {
             self.io_failed.store(true, Ordering::Release);
